@@ -17,7 +17,7 @@ from mc import world
 from mc.report import add_sample, add_violation, count, new_part
 
 LEVEL = "model_checking"
-RULE = ("BFS over histories of completed SDK operations (if_* context/callback on Future/RegFuture/literal, loop, loop_body, "
+RULE = ("BFS over histories of completed SDK operations (if_* context/callback on Future/RegFuture/literal, loop, loop_body, both with and without an explicit loop_register, "
         "loop_until on Future and RegFuture, foreach, enumerate, add variants, measure into array/register/slot, new_array with "
         "equal/distinct initial values, create/recv keep plain / sequential+post / min-fidelity, create/recv context, "
         "create/recv measure, nested composite, flush) with a flush forced at the latest after 15 operations; state = register "
@@ -112,6 +112,20 @@ def op_loop_ctx(e):
 
 def op_loop_body(e):
     e.conn.loop_body(lambda c, i: e.Q.H(), stop=2)
+
+
+def op_loop_ctx_reg(e):
+    with e.conn.loop(2, loop_register="R3"):
+        e.Q.X()
+
+
+def op_loop_ctx_reg_hi(e):
+    with e.conn.loop(3, start=1, step=2, loop_register="R14"):
+        e.Q.X()
+
+
+def op_loop_body_reg(e):
+    e.conn.loop_body(lambda c, i: e.Q.H(), stop=5, start=1, step=2, loop_register="R2")
 
 
 def op_loop_index(e):
@@ -263,6 +277,7 @@ OPS: List[Tuple[str, Callable, int]] = [   # (name, function, register measureme
     ("if_eq_ctx", op_if_eq_ctx, 0), ("if_ne_cb", op_if_ne_cb, 0), ("if_lt_ctx", op_if_lt_ctx, 0), ("if_ge_cb", op_if_ge_cb, 0),
     ("if_ez_ctx", op_if_ez_ctx, 0), ("if_nz_cb", op_if_nz_cb, 0), ("if_eq_reg", op_if_eq_reg, 1), ("if_ez_reg", op_if_ez_reg, 1),
     ("loop_ctx", op_loop_ctx, 0), ("loop_body", op_loop_body, 0), ("loop_index", op_loop_index, 0),
+    ("loop_ctx_reg", op_loop_ctx_reg, 0), ("loop_ctx_reg_hi", op_loop_ctx_reg_hi, 0), ("loop_body_reg", op_loop_body_reg, 0),
     ("until_future", op_until_future, 0), ("until_reg", op_until_reg, 1),
     ("foreach", op_foreach, 0), ("enumerate", op_enumerate, 0),
     ("add_lit", op_add_lit, 0), ("add_future_mod", op_add_future_mod, 0), ("add_reg", op_add_reg, 1), ("add_reg_future", op_add_reg_future, 1),
